@@ -4,7 +4,7 @@
    driver only reads and prints numbers. *)
 From Coq Require Import FMapPositive.
 From Lace Require Import Word Machine Isa Vm RunProofs.
-From Lace Require Asm Cli.
+From Lace Require Asm Cli Watch.
 
 (* ------------------------------------------------------------------ *)
 (** * Helpers *)
@@ -201,6 +201,18 @@ Definition run_obj (args : list N) : list (list N) :=
   | Asm.Err _ _ _ => [[1; 0]]
   | Asm.Bad _ => [[101; 0]]
   end.
+
+(** WATCH = feat nversions, then for each version: nchars and its chars; result: one verdict per version
+    (`lace watch`: Watch.watch on the versions in order) *)
+Fixpoint take_versions (n : nat) (args : list N) : list (list N) :=
+  match n with
+  | O => []
+  | S n' => let '(src, rest) := take (N.to_nat (hdN args)) (tlN args) in src :: take_versions n' rest
+  end.
+
+Definition run_watch (args : list N) : list (list N) :=
+  let feat := negb (hdN args =? 0) in
+  [Watch.watch feat [] (take_versions (N.to_nat (hdN (tlN args))) (tlN (tlN args)))].
 
 Definition run_lc3 (args : list N) : list (list N) :=
   let feat := negb (hdN args =? 0) in
